@@ -400,6 +400,44 @@ func watchEvents(d services.ServiceDirectoryProxy, prog *int64, addr string) (*e
 	return l, func() { rcn.close() }, nil
 }
 
+// vanishOnce is a subscriber of serviceAdded / serviceRemoved that disappears without a word: a raw
+// connection registers for both signals, tells the caller, yields a few times and closes its socket
+// (no unregisterEvent). The directory then meets a dead subscriber while it announces a transition;
+// what the healthy subscribers and the callers see must not depend on it.
+func vanishOnce(addr string, d services.ServiceDirectoryProxy, yields int, subscribed chan<- struct{}) {
+	tell := func() {
+		if subscribed != nil {
+			subscribed <- struct{}{}
+		}
+	}
+	meta := d.Proxy().MetaObject()
+	addedID, err1 := meta.SignalID("serviceAdded", "(Is)")
+	removedID, err2 := meta.SignalID("serviceRemoved", "(Is)")
+	rcn, err := dialRaw(addr)
+	if err != nil || err1 != nil || err2 != nil {
+		tell()
+		return
+	}
+	defer rcn.close()
+	if ok, _ := rcn.authenticate("", ""); !ok {
+		tell()
+		return
+	}
+	for k, sig := range []uint32{addedID, removedID} {
+		args := rc.Encode(rc.TupleOf(rc.T(rc.Uint32), rc.T(rc.Uint32), rc.T(rc.Uint64)), rc.Tup{uint32(1), sig, uint64(0x99990000 + k)})
+		if _, err := rcn.call(1, 1, 0, args, nil); err != nil {
+			break
+		}
+	}
+	atomic.AddInt64(&vanished, 1)
+	tell()
+	for y := 0; y < yields; y++ {
+		runtime.Gosched()
+	}
+}
+
+var vanished int64
+
 // checkEvents compares the event log with what the operations' outcomes imply.
 func checkEvents(l *eventLog, wantAdded, wantRemoved map[uint32]bool, removedAllowed func(uint32) bool, prog *int64) (string, string) {
 	ok := func() bool {
@@ -528,9 +566,19 @@ func c15pair(c *wk.Ctx) {
 		var shapes []string
 		for k := 0; k < rounds; k++ {
 			name := fmt.Sprintf("p%d", rng.Intn(2))
+			var vwg sync.WaitGroup
+			if rng.Intn(2) == 0 {
+				// a subscriber of the directory's signals disappears while the service is announced
+				sub := make(chan struct{}, 1)
+				y := rng.Intn(40)
+				vwg.Add(1)
+				go func() { defer vwg.Done(); vanishOnce(w.addr, ds[1], y, sub) }()
+				<-sub
+			}
 			call := now()
 			s, err := w.server.NewService(name, probe.ProbeObject(svc.NewImpl(name)))
 			ret := now()
+			vwg.Wait()
 			if err != nil {
 				// the name must be free at this point: the model decides
 				addOp(100, dirIn{Op: "register", Name: name, Tag: w.addr, Valid: true}, call, dirOut{Err: true, Msg: short(err)}, ret)
@@ -662,6 +710,7 @@ func c15pair(c *wk.Ctx) {
 		} else if wmsg == "watchdog" {
 			c.Inconclusive("pair", i, "watchdog (events)")
 		}
+		c.Count("subscribers_that_vanished_without_unregistering", atomic.SwapInt64(&vanished, 0))
 		c.Count("pair_rounds", int64(rounds))
 		c.Count("pair_rounds_with_removal_overlapping_the_burst", int64(overlapped))
 		c.Count("pair_operations", int64(len(hist)))
@@ -1140,6 +1189,19 @@ func c15conc(c *wk.Ctx) {
 			c.Inconclusive("conc", i, setupFail)
 			return
 		}
+		if rng.Intn(2) == 0 {
+			// subscribers of the directory's signals that come and disappear without unregistering
+			cycles := 4 + rng.Intn(12)
+			vr := rand.New(rand.NewSource(rng.Int63()))
+			wg.Add(1)
+			go func() {
+				defer wg.Done()
+				<-start
+				for k := 0; k < cycles; k++ {
+					vanishOnce(w.addr, ed, vr.Intn(60), nil)
+				}
+			}()
+		}
 		localRemote := int32(0)
 		for k := 0; k < nLocal; k++ {
 			wg.Add(1)
@@ -1248,6 +1310,7 @@ func c15conc(c *wk.Ctx) {
 				}
 			}
 		}
+		c.Count("subscribers_that_vanished_without_unregistering", atomic.SwapInt64(&vanished, 0))
 		c.Count("conc_operations", int64(len(hist)))
 		c.Count("local_remote_overlapping_pairs", int64(overl))
 		if overl > 0 {
